@@ -197,6 +197,42 @@ func c05Tasks(tier string) []mc.Task {
 			}
 		}
 	}
+	// (ii'') every length 9..100 and around 256, 1024, 4096, 65536 (several codons per step with a tail, paths
+	// that switch above a size): rows cycling through codons that read differently under the three codes,
+	// ambiguity codes, lower case and U; every frame, three codes; as sequence, sequence set and alignment
+	ts = append(ts, mc.Task{Name: "length-sweep", Run: func(c *mc.Ctx) {
+		var lens []int
+		for l := 9; l <= 100; l++ {
+			lens = append(lens, l)
+		}
+		for _, b := range []int{256, 1024, 4096, 65536} {
+			for d := -2; d <= 3; d++ {
+				lens = append(lens, b+d)
+			}
+		}
+		const unit = "ATGAGAATATGAGCNcugRAYaaaTTYAGGuaaCTNGGGACSTARMGR---A-CNNN"
+		for _, l := range lens {
+			for _, off := range []int{0, 1, 7} {
+				r1, r2 := make([]byte, l), make([]byte, l)
+				for j := range r1 {
+					r1[j] = unit[(j+off)%len(unit)]
+					r2[j] = unit[(j+off+20)%len(unit)]
+				}
+				for _, code := range geneticCodes {
+					for _, fr := range []int{0, 1, 2, -1} {
+						if fr >= 0 {
+							c05Check(c, c05Case{Kind: "seq", Seqs: []string{string(r1)}, Frame: fr, Code: code})
+						}
+						c05Check(c, c05Case{Kind: "bag", Seqs: []string{string(r1), string(r2[:l/2+1])}, Frame: fr, Code: code})
+						c05Check(c, c05Case{Kind: "aln", Seqs: []string{string(r1), string(r2)}, Frame: fr, Code: code})
+					}
+				}
+			}
+			if c.Expired() {
+				return
+			}
+		}
+	}})
 	// (ii') a sample of the container translated before the container itself (frames 0..2, three codes)
 	ts = append(ts, mc.Task{Name: "after-sample#all", Run: func(c *mc.Ctx) {
 		for _, seqs := range [][]string{{"ATGGCTTAA"}, {"ATGGCTTAA", "ATGTTTAAG"}, {"ATGGCTTAAG", "CCATGGTTAA", "ATGNNNTRAC"}} {
@@ -751,7 +787,7 @@ func init() {
 		Level: "exploration",
 		Rule: cliStreamRule[1:] + " Command line: goalign translate --phase 0,1,2,-1 x --genetic-code (not given, standard, mitov, mitoi) x aligned / --unaligned / --ref-seq on 4 sets holding the codons on which the three tables differ: the output must be what Translate / TranslateByReference give for that frame and table. " + "bounded-exhaustive enumeration: (i) all 42^3 codons over IUPAC letters in both cases plus - . * ? X x Z 1 space 0xE9, x 3 genetic codes, through Sequence.Translate and Alignment.Translate, and every codon under the three codes in all 6 orders inside one process (a result must not depend on which code an earlier call used); " +
 			"(ii) all sequences of length 0..6 (quick) / 0..8 (thorough) over {A,T,G,R,-} x frames {0,1,2,-1} x 3 codes through Sequence/SeqBag/Alignment.Translate; " +
-			"(iii) CodonAlign for all nt rows of length 3..6/8 over ACGT with every placement of <=2 gap columns; (iv) TranslateByReference for all 2-row alignments L<=6/7 over {A,C,G,-} x frames x each reference, and for references whose codon is split by a run of 3 or 4 gaps (after its 1st or 2nd base, with and without a following codon) against every other row over {A,C,-}; and an upper-case DNA row beside every row of length 3,4,6(,7) over lower case, U/u and an ambiguity code, each as reference, standard and vertebrate mitochondrial tables (case folding and U->T on the reference-guided path). " +
+			"(ii'') rows of every length 9..100 and within -2..+3 of 256, 1024, 4096, 65536 cycling through codons on which the tables differ, ambiguity codes, lower case and U, three starting points x 3 codes x every frame, as sequence, set and alignment; (iii) CodonAlign for all nt rows of length 3..6/8 over ACGT with every placement of <=2 gap columns; (iv) TranslateByReference for all 2-row alignments L<=6/7 over {A,C,G,-} x frames x each reference, and for references whose codon is split by a run of 3 or 4 gaps (after its 1st or 2nd base, with and without a following codon) against every other row over {A,C,-}; and an upper-case DNA row beside every row of length 3,4,6(,7) over lower case, U/u and an ambiguity code, each as reference, standard and vertebrate mitochondrial tables (case folding and U->T on the reference-guided path). " +
 			"A case is non-trivial when the call succeeded and its full result was compared with the NCBI-table oracle (error-path and skipped cases are not counted); distinct = distinct (entry point, input, frame, code).",
 		Assumptions: []string{
 			"NCBI translation tables 1, 2, 5 entered in the harness as the canonical 64-letter strings are correct",
